@@ -6,6 +6,7 @@ import PasfmtModel.Model.Mls
 import PasfmtModel.Model.Contracts
 import PasfmtModel.Proofs.MlsSim
 import PasfmtModel.Proofs.LinesCustom
+import PasfmtModel.Proofs.MlsMore
 
 namespace Pasfmt.C12
 
@@ -145,5 +146,197 @@ example : refLines [0x61, 0x0D, 0x0A, 0x62, 0x0D, 0x63, 0x0A, 0x0A, 0x64] = [[0x
 example : linesCustom [0x61, 0x0D, 0x0A, 0x62, 0x0D, 0x63, 0x0A, 0x0A, 0x64] = [[0x61], [0x62], [0x63], [], [0x64]] := by decide
 -- the excluded case: a final CR LF yields one more (empty) line in the Rust code
 example : linesCustom [0x61, 0x0D, 0x0A] = [[0x61], []] ∧ refLines [0x61, 0x0D, 0x0A] = [[0x61]] := by decide
+
+/-! ### end to end from `mlsRewrite` (helpers in `Proofs/MlsMore.lean`)
+
+Common hypothesis `content.getLast? = some 0x27`: the literal ends in a quote - true of every multi-line literal token
+(the scanner ends it after the closing quotes); it excludes texts whose last line holds no closing quotes at all, for
+which the model does other things (counterexamples below).  `MlsMore.SettingsOk S`: the line ending is LF or CR LF and
+the indentation strings consist of blanks `≤ 0x20` other than CR/LF - true of `cfg.settings` for every `cfg`
+(`MlsMore.settings_ok`). -/
+
+theorem renderAll_eq (S : Settings) (ind cont : Nat) (vs : List Bytes) :
+    MlsMore.renderAll S ind cont vs = (vs.map (renderLine S ind cont)).flatten := by
+  rfl
+
+/-- an interior line after re-indentation is empty or the new indentation followed by its (non-empty) value -/
+theorem lineText_cases (S : Settings) (ind cont : Nat) (v : Bytes) :
+    (v = [] ∧ lineText S ind cont v = []) ∨ (v ≠ [] ∧ lineText S ind cont v = newIndent S ind cont ++ v) := by
+  unfold lineText
+  cases v with
+  | nil => simp
+  | cons a r => simp
+
+/-- **C12, "afterwards the closing quotes and all interior lines are indented exactly like the opening quotes' line"**,
+    on the model's own structure, end to end from `mlsRewrite`, for every literal that ends in a quote, every pair of
+    counters and every settings record.  If the rewriter changes the literal, then the literal consists of an opening
+    line, interior lines and a closing line `base ++ q` (`base` = the blanks of the closing line, `q` = a non-empty run
+    of quotes, nothing after it); every interior line has a value `v` with respect to `base`; and the new text is the
+    unchanged opening line, then per interior line the configured line ending followed by nothing (empty value) or by
+    exactly `ind` indentation strings, `cont` continuation strings and the value (`renderLine`), then the line ending,
+    the same `ind`+`cont` strings and the same quotes `q`.  No piece contains a CR or LF of its own. -/
+theorem mls_indent_exact (S : Settings) (content : Bytes) (ind cont : Nat) (c' : Bytes)
+    (hq : content.getLast? = some 0x27) (h : mlsRewrite S content ind cont = some c') :
+    ∃ (opening : Bytes) (interior : List Bytes) (base q : Bytes) (vs : List Bytes),
+      linesCustom content = opening :: (interior ++ [base ++ q]) ∧
+      countLeadingWs (base ++ q) = base.length ∧ q ≠ [] ∧ (∀ b ∈ q, b = 0x27) ∧
+      interior.mapM (lineValue base) = some vs ∧
+      c' = opening ++ (vs.map (renderLine S ind cont)).flatten ++ S.nlStr ++ newIndent S ind cont ++ q ∧
+      NoNl opening ∧ (∀ v ∈ vs, NoNl v) := by
+  obtain ⟨first, interior, base, q, vs, h1, _, h3, h4, h5, h6, _, h8, h9, h10, _⟩ :=
+    MlsMore.mlsRewrite_anatomy S content ind cont c' hq h
+  refine ⟨first, interior, base, q, vs, h1, h3, h4, h5, h6, ?_, h9, h10⟩
+  rw [h8, MlsMore.renderAll_snoc, MlsMore.lineText_quotes S ind cont h4, renderAll_eq]
+  simp [newIndent, MlsMore.newIndent]
+
+/-- the same **on the bytes of the result**, for the settings of every configuration: split at its line breaks, the
+    rewritten literal is the unchanged opening line, then for each interior value either an empty line or the new
+    indentation followed by the value (`lineText_cases`), then the new indentation followed by the closing quotes. -/
+theorem mls_indent_exact_lines (S : Settings) (hS : MlsMore.SettingsOk S) (content : Bytes) (ind cont : Nat) (c' : Bytes)
+    (hq : content.getLast? = some 0x27) (h : mlsRewrite S content ind cont = some c') :
+    ∃ (opening q : Bytes) (vs : List Bytes),
+      (linesCustom content).head? = some opening ∧ MlsMore.literalValue content = some vs ∧
+      q ≠ [] ∧ (∀ b ∈ q, b = 0x27) ∧
+      linesCustom c' = opening :: (vs.map (lineText S ind cont) ++ [newIndent S ind cont ++ q]) := by
+  obtain ⟨first, interior, base, q, vs, h1, _, _, h4, h5, _, h7, h8, h9, h10, _⟩ :=
+    MlsMore.mlsRewrite_anatomy S content ind cont c' hq h
+  refine ⟨first, q, vs, by rw [h1]; rfl, h7, h4, h5, ?_⟩
+  rw [h8, linesCustom_eq_refLines _ (MlsMore.not_ends_crlf (MlsMore.rewritten_ends_quote S ind cont first vs q h4 h5))]
+  exact MlsMore.rewritten_lines hS ind cont first vs q h9 h10 h4 h5
+
+/-- **C03/C12: a second application changes nothing.**  If the rewriter turned the literal into `c'`, then applied to
+    `c'` with the same counters and settings it reports "no change" (`none`; the model has no separate fast path - it
+    recomputes the text and finds it equal), so the token text stays `c'`.  Excluded: texts that do not end in a quote,
+    line endings other than LF / CR LF, indentation strings with non-blanks or line breaks (counterexamples below). -/
+theorem mls_rewrite_idem (S : Settings) (hS : MlsMore.SettingsOk S) (content : Bytes) (ind cont : Nat) (c' : Bytes)
+    (hq : content.getLast? = some 0x27) (h : mlsRewrite S content ind cont = some c') :
+    mlsRewrite S c' ind cont = none :=
+  MlsMore.mls_idem S hS content ind cont c' hq h
+
+/-- **C12, first sentence, end to end: the value of the literal is unchanged.**  `MlsMore.literalValue` is defined
+    without reference to the rewriter (lines split at CR LF / CR / LF; first and last line dropped; indentation = the
+    blanks in front of the closing quotes; each interior line stripped of it, a line that is a prefix of it counting as
+    empty).  Whenever the rewriter changes a literal that ends in a quote, the literal is well-formed and the new text
+    has the same value - trailing blanks, blank lines and over-indentation included. -/
+theorem mls_value_full (S : Settings) (hS : MlsMore.SettingsOk S) (content : Bytes) (ind cont : Nat) (c' : Bytes)
+    (hq : content.getLast? = some 0x27) (h : mlsRewrite S content ind cont = some c') :
+    ∃ vs, MlsMore.literalValue content = some vs ∧ MlsMore.literalValue c' = some vs := by
+  obtain ⟨first, interior, base, q, vs, _, _, _, h4, h5, _, h7, h8, h9, h10, _⟩ :=
+    MlsMore.mlsRewrite_anatomy S content ind cont c' hq h
+  refine ⟨vs, h7, ?_⟩
+  rw [h8]
+  exact MlsMore.literalValue_rewritten hS ind cont first vs q h9 h10 h4 h5
+
+/-- the same for the settings of every configuration, as an equation -/
+theorem mls_value_full_cfg (cfg : Config) (content : Bytes) (ind cont : Nat) (c' : Bytes)
+    (hq : content.getLast? = some 0x27) (h : mlsRewrite cfg.settings content ind cont = some c') :
+    MlsMore.literalValue c' = MlsMore.literalValue content := by
+  obtain ⟨vs, h1, h2⟩ := mls_value_full cfg.settings (MlsMore.settings_ok cfg) content ind cont c' hq h
+  rw [h1, h2]
+
+-- Tests (labelled as tests).  content = "'''\n    abc\n    '''", rewritten to 1 x "  " + 1 x "    " with LF
+example : mlsRewrite { nlStr := [10], indStr := [32, 32], contStr := [32, 32, 32, 32] }
+    [39,39,39,10, 32,32,32,32,97,98,99,10, 32,32,32,32,39,39,39] 1 1
+    = some [39,39,39,10, 32,32,32,32,32,32,97,98,99,10, 32,32,32,32,32,32,39,39,39] := by decide +kernel
+example : linesCustom [39,39,39,10, 32,32,32,32,32,32,97,98,99,10, 32,32,32,32,32,32,39,39,39]
+    = [[39,39,39], [32,32,32,32,32,32,97,98,99], [32,32,32,32,32,32,39,39,39]] := by decide +kernel
+example : mlsRewrite { nlStr := [10], indStr := [32, 32], contStr := [32, 32, 32, 32] }
+    [39,39,39,10, 32,32,32,32,32,32,97,98,99,10, 32,32,32,32,32,32,39,39,39] 1 1 = none := by decide +kernel
+example : MlsMore.literalValue [39,39,39,10, 32,32,32,32,97,98,99,10, 32,32,32,32,39,39,39] = some [[97,98,99]] := by
+  decide +kernel
+example : MlsMore.literalValue [39,39,39,10, 32,32,32,32,32,32,97,98,99,10, 32,32,32,32,32,32,39,39,39] = some [[97,98,99]] := by
+  decide +kernel
+-- the literal of the first test: CR LF / LF / CR endings, a short line, an over-indented line, trailing blanks
+example : MlsMore.literalValue
+    [39,39,39,13,10, 32,32,32,32,97,32,32,10, 32,32,13, 32,32,32,32,32,32,98,10, 32,32,32,32,39,39,39]
+    = some [[97,32,32], [], [32,32,98]] := by decide +kernel
+example : MlsMore.literalValue
+    [39,39,39,10, 32,32,32,32,32,32,97,32,32,10, 10, 32,32,32,32,32,32,32,32,98,10, 32,32,32,32,32,32,39,39,39]
+    = some [[97,32,32], [], [32,32,98]] := by decide +kernel
+-- an interior line that does not start with the closing line's indentation: ill-formed
+example : MlsMore.literalValue [39,39,39,10, 32,97,10, 32,32,39,39,39] = none := by decide +kernel
+
+/-! #### the hypotheses are needed -/
+
+/-- **Counterexample without "ends in a quote"**: `x⏎··␍··` (the last line of `str::lines()` is `··␍··`, all blank,
+    no closing quotes) is rewritten to `x⏎⏎`, whose last piece is not "indentation + quotes", and a second and a third
+    application change the text again (`x⏎`, then `x`): neither `mls_indent_exact` nor `mls_rewrite_idem` hold for it. -/
+theorem mls_no_quote_counterexample :
+    let S : Settings := { nlStr := [10], indStr := [32, 32], contStr := [32, 32] }
+    mlsRewrite S [120, 10, 32, 32, 13, 32, 32] 1 0 = some [120, 10, 10] ∧
+    mlsRewrite S [120, 10, 10] 1 0 = some [120, 10] ∧
+    mlsRewrite S [120, 10] 1 0 = some [120] := by decide +kernel
+
+/-- **Counterexample to value preservation without "ends in a quote"**: `⏎'⏎⏎` has no value (its last line is empty),
+    the rewritten text `⏎··⇥'⏎` has the value "no interior lines". -/
+theorem mls_value_no_quote_counterexample :
+    let S : Settings := { nlStr := [10], indStr := [32, 32], contStr := [9] }
+    mlsRewrite S [10, 39, 10, 10] 1 1 = some [10, 32, 32, 9, 39, 10] ∧
+    MlsMore.literalValue [10, 39, 10, 10] = none ∧ MlsMore.literalValue [10, 32, 32, 9, 39, 10] = some [] := by
+  decide +kernel
+
+/-- **Counterexamples for the settings**: with the line ending `⏎⏎`, with the indentation string `⏎`, and with the
+    indentation string `'`, the rewritten literal is changed again by a second application. -/
+theorem mls_settings_counterexamples :
+    (mlsRewrite { nlStr := [10, 10], indStr := [32, 32], contStr := [] } [39,39,39,10,97,10,39,39,39] 0 0
+        = some [39,39,39,10,10,97,10,10,39,39,39] ∧
+      mlsRewrite { nlStr := [10, 10], indStr := [32, 32], contStr := [] } [39,39,39,10,10,97,10,10,39,39,39] 0 0
+        = some [39,39,39,10,10,10,10,97,10,10,10,10,39,39,39]) ∧
+    (mlsRewrite { nlStr := [10], indStr := [10], contStr := [] } [39,39,39,10,32,39,39,39] 1 0
+        = some [39,39,39,10,10,39,39,39] ∧
+      mlsRewrite { nlStr := [10], indStr := [10], contStr := [] } [39,39,39,10,10,39,39,39] 1 0
+        = some [39,39,39,10,10,10,39,39,39]) ∧
+    (mlsRewrite { nlStr := [10], indStr := [39], contStr := [] } [39,39,39,10,32,39,39,39] 1 0
+        = some [39,39,39,10,39,39,39,39] ∧
+      mlsRewrite { nlStr := [10], indStr := [39], contStr := [] } [39,39,39,10,39,39,39,39] 1 0
+        = some [39,39,39,10,39,39,39,39,39]) := by decide +kernel
+
+/-- with a non-blank indentation string (`a`) the value is lost: the new closing line `a'''` has text before the quotes -/
+theorem mls_value_settings_counterexample :
+    let S : Settings := { nlStr := [10], indStr := [97], contStr := [] }
+    mlsRewrite S [39,39,39,10,32,39,39,39] 1 0 = some [39,39,39,10,97,39,39,39] ∧
+    MlsMore.literalValue [39,39,39,10,32,39,39,39] = some [] ∧ MlsMore.literalValue [39,39,39,10,97,39,39,39] = none := by
+  decide +kernel
+
+/-- **C12: the re-indented literal is still ONE multi-line string literal token.**  If the scanner's text-literal
+    sub-lexer reads `content`, standing in front of any `rest`, as one multi-line literal (length `|content|`, kind
+    `MultiLine`), and the re-indenter turns `content` into `c'`, then it reads `c'` in front of the same `rest` as one
+    multi-line literal of length exactly `|c'|`: re-indentation creates no earlier run of closing quotes and keeps
+    the opening and closing runs.  Nothing is assumed about `rest` (it may start with a quote).  Excluded: settings
+    whose indentation strings contain non-blanks (counterexample below). -/
+theorem mls_still_one_token (S : Settings) (hS : MlsMore.SettingsOk S) (content rest : Bytes) (ind cont : Nat) (c' : Bytes)
+    (hscan : textLiteral (content ++ rest) = (content.length, .tMultiLine))
+    (h : mlsRewrite S content ind cont = some c') :
+    textLiteral (c' ++ rest) = (c'.length, .tMultiLine) :=
+  MlsMore.mls_one_token S hS content rest ind cont c' hscan h
+
+/-- the same for one step of the scanner (`whitespace_and_token`), in any scanner state, in and outside `asm` blocks:
+    no leading blanks, a token of length `|c'|` and kind `TextLiteral(MultiLine)` -/
+theorem mls_still_one_token_lexOne (cfg : Config) (content rest : Bytes) (ind cont : Nat) (c' : Bytes)
+    (hscan : textLiteral (content ++ rest) = (content.length, .tMultiLine))
+    (h : mlsRewrite cfg.settings content ind cont = some c') (simd : Bool) (st : LexState) :
+    lexOne simd st (c' ++ rest) = some (some (0, c'.length, .rTextLiteral .tMultiLine,
+      { isFirst := false, inAsm := st.inAsm, prevReal := some (.rTextLiteral .tMultiLine) })) :=
+  MlsMore.mls_one_token_lexOne cfg.settings (MlsMore.settings_ok cfg) content rest ind cont c' hscan h simd st
+
+-- Tests (labelled as tests): "'''\n    abc\n    '''" and its re-indented form, each followed by "';"
+example : textLiteral ([39,39,39,10, 32,32,32,32,97,98,99,10, 32,32,32,32,39,39,39] ++ [39, 59])
+    = (19, .tMultiLine) := by decide +kernel
+example : textLiteral ([39,39,39,10, 32,32,32,32,32,32,97,98,99,10, 32,32,32,32,32,32,39,39,39] ++ [39, 59])
+    = (23, .tMultiLine) := by decide +kernel
+
+/-- **Counterexample for the settings**: with the indentation string `'` the literal `'''⏎·'''` (8 bytes) becomes
+    `'''⏎''''` (8 bytes), of which the scanner reads only the first 7 as the literal. -/
+theorem mls_one_token_settings_counterexample :
+    textLiteral [39,39,39,10,32,39,39,39] = (8, .tMultiLine) ∧
+    mlsRewrite { nlStr := [10], indStr := [39], contStr := [] } [39,39,39,10,32,39,39,39] 1 0
+      = some [39,39,39,10,39,39,39,39] ∧
+    textLiteral [39,39,39,10,39,39,39,39] = (7, .tMultiLine) := by decide +kernel
+
+/-- the common hypothesis "the literal ends in a quote" holds for every text that the scanner reads as a multi-line
+    literal (whatever follows it) -/
+theorem mls_token_ends_quote (content rest : Bytes)
+    (hscan : textLiteral (content ++ rest) = (content.length, .tMultiLine)) : content.getLast? = some 0x27 :=
+  MlsMore.multi_ends_quote content rest hscan
 
 end Pasfmt.C12
